@@ -245,7 +245,15 @@ impl Node {
             block
         } else {
             match Block::deserialize_from_net(&block.serialize_for_net(saito_core::core::consensus::block::BlockType::Full)) {
-                Ok(b) => b,
+                Ok(mut b) => {
+                    // the verification thread generates a fetched block once (to compare its hash with the one requested)
+                    // before the consensus thread's add_block generates it again: a peer's block is generated TWICE
+                    let mut g = b.clone();
+                    if g.generate().is_ok() {
+                        b = g;
+                    }
+                    b
+                }
                 Err(_) => block,
             }
         };
